@@ -306,6 +306,62 @@ Section Proofs.
     - exact Hc.
   Qed.
 
+  (* ------------------------------------------------------------------ caller-built arrays *)
+  Lemma flat_enc_len_ge (ps : cpaths) : (2 * length ps <= length (flat_map enc_path ps))%nat.
+  Proof.
+    induction ps as [|p ps IH]; [cbn; lia|].
+    cbn [flat_map length]. rewrite app_length. unfold Export.enc_path at 1. cbn [length]. lia.
+  Qed.
+
+  (* ConvertCPathsToPathsT on an array built by a caller from the documented layout, every path an entry
+     (an empty one as [0; 0]): exactly those paths come back, the empty ones included, in order *)
+  Lemma dec_enc_paths_raw D (ps : cpaths) : (0 < D)%nat -> Forall (Forall (dims D)) ps ->
+    Z.of_nat (length (enc_paths_raw E ofc ezero ps)) < cmax ->
+    dec_paths D (enc_paths_raw E ofc ezero ps) = Some ps.
+  Proof.
+    intros HD H Hc.
+    pose proof (flat_enc_len_ge ps) as HF.
+    set (a := enc_paths_raw E ofc ezero ps) in *.
+    assert (Hlen : length a = (2 + length (flat_map enc_path ps))%nat) by reflexivity.
+    unfold Export.dec_paths.
+    assert (S1 : stated_len E toc a = Some (length a)).
+    { unfold stated_len, a, Export.enc_paths_raw. cbv zeta. rewrite toc_ofc by (fold a in Hc; lia).
+      rewrite Nat2Z.id. reflexivity. }
+    rewrite S1.
+    assert (R1 : rd_cnt E toc a (length a) 1 = Some (Z.of_nat (length ps))).
+    { unfold rd_cnt, rd. replace (1 <? length a)%nat with true by (symmetry; apply Nat.ltb_lt; lia).
+      unfold a, Export.enc_paths_raw. cbv zeta. cbn [nth_error]. apply toc_ofc.
+      unfold Export.cpaths, Export.cpath, Export.vertex in *; lia. }
+    rewrite R1.
+    pose proof (dec_loop_spec D ps HD a
+                  [ofc (Z.of_nat (2 + length (flat_map enc_path ps))); ofc (Z.of_nat (length ps))] []
+                  (length a) (S (length a))) as P.
+    match goal with |- match ?X with _ => _ end = _ =>
+      assert (Q : X = Some (ps, (2 + length (flat_map enc_path ps))%nat));
+      [ | rewrite Q; reflexivity ] end.
+    apply P.
+    - unfold a, Export.enc_paths_raw. cbv zeta. rewrite app_nil_r. reflexivity.
+    - exact H.
+    - unfold Export.cpaths, Export.cpath, Export.vertex in *; lia.
+    - cbn [length]. lia.
+    - exact Hc.
+  Qed.
+
+  (* its first element is the number of elements, its second the number of entries *)
+  Lemma enc_raw_len (ps : cpaths) :
+    nth_error (enc_paths_raw E ofc ezero ps) 0 = Some (ofc (Z.of_nat (length (enc_paths_raw E ofc ezero ps)))) /\
+    nth_error (enc_paths_raw E ofc ezero ps) 1 = Some (ofc (Z.of_nat (length ps))).
+  Proof. split; reflexivity. Qed.
+
+  (* where no path is empty the caller-built array is the array the library's own creator writes *)
+  Lemma enc_raw_eq_enc D (ps : cpaths) : Forall (Forall (dims D)) ps -> filter nonempty ps = ps ->
+    enc_paths_raw E ofc ezero ps = enc_paths D ps.
+  Proof.
+    intros H Hf. unfold Export.enc_paths_raw, Export.enc_paths. cbv zeta.
+    rewrite (paths_cnt_spec D ps H). pose proof (paths_len_spec D ps H) as HL. rewrite HL.
+    unfold Export.enc_paths. cbn [length]. rewrite enc_body_filter, Hf. reflexivity.
+  Qed.
+
   (* every read of the decoder on an encoder output is inside the stated length: the checked decoder
      does not fail *)
   Lemma dec_enc_paths_in_bounds D (ps : cpaths) : (0 < D)%nat -> Forall (Forall (dims D)) ps ->
